@@ -12,6 +12,7 @@ import SkaModel.Drv.Wrapper
 import SkaModel.Drv.Window
 import SkaModel.Drv.Rng
 import SkaModel.Drv.Density
+import SkaModel.Drv.Uncertainty
 
 /-! Line-protocol driver: one self-contained case per input line, one output line per case.
 Imports only the Mathlib-free `Core`/`Drv` modules so it links as a `lean_exe`. -/
@@ -22,7 +23,7 @@ def allHandlers : List (String × P String) :=
   Ska.Drv.Sel.handlers ++ Ska.Drv.Budget.handlers ++ Ska.Drv.Label.handlers ++ Ska.Drv.Agg.handlers
   ++ Ska.Drv.IndexWrapper.handlers ++ Ska.Drv.MultiAnnot.handlers ++ Ska.Drv.Classifier.handlers
   ++ Ska.Drv.Regressor.handlers ++ Ska.Drv.Fit.handlers ++ Ska.Drv.Pool.handlers
-  ++ Ska.Drv.Wrapper.handlers ++ Ska.Drv.Window.handlers ++ Ska.Drv.Rng.handlers ++ Ska.Drv.Density.handlers
+  ++ Ska.Drv.Wrapper.handlers ++ Ska.Drv.Window.handlers ++ Ska.Drv.Rng.handlers ++ Ska.Drv.Density.handlers ++ Ska.Drv.Uncertainty.handlers
 
 def step (line : String) : String :=
   match tokens line with
